@@ -74,10 +74,15 @@ def load_known_findings():
         return json.load(f)
 
 
+CURRENT = None  # the Run of this process (set by Run.__init__)
+
+
 class Run:
     """One execution of one property's check: collects coverage, violations, writes evidence."""
 
     def __init__(self, pid, tier, level):
+        global CURRENT
+        CURRENT = self
         self.pid = pid
         self.tier = tier
         self.level = level
@@ -198,14 +203,44 @@ def pmap(func, items, procs=None):
 def _guard(func, it):
     try:
         return func(it)
-    except Exception:
+    except Exception as e:
         import traceback
 
-        return ("EXC", traceback.format_exc()[-2000:])
+        tb = traceback.extract_tb(e.__traceback__)
+        inside = [f for f in tb if os.path.abspath(f.filename).startswith(os.path.join(REPO, "openaerostruct") + os.sep)]
+        text = traceback.format_exc()[-2500:]
+        if inside:
+            # the code under test raised while handling an admissible case: that is a finding about the code,
+            # not a failure of the machinery
+            last = inside[-1]
+            where = "%s:%s" % (os.path.relpath(last.filename, REPO), last.name)
+            return ("CODE_EXC", {"type": type(e).__name__, "where": where, "message": str(e)[:400], "traceback": text, "case": _brief(it)})
+        return ("EXC", text)
+
+
+def _brief(it):
+    try:
+        return json.loads(json.dumps(it, default=jdefault))
+    except Exception:
+        return str(it)[:500]
 
 
 def check_exc(results):
+    """Machinery exceptions abort the check (exit 2).  Exceptions raised INSIDE the code under test on an
+    admissible case are reported as violations of the property being checked (the analysis did not produce a result)
+    and removed from the result list."""
     ex = [r for r in results if isinstance(r, tuple) and len(r) == 2 and r[0] == "EXC"]
     if ex:
         raise MachineryError("worker exception (%d of %d):\n%s" % (len(ex), len(results), ex[0][1]))
-    return results
+    out = []
+    for r in results:
+        if isinstance(r, tuple) and len(r) == 2 and r[0] == "CODE_EXC":
+            info = r[1]
+            if CURRENT is not None:
+                CURRENT.case(["exception", info["where"], info["type"]], True, section="exceptions_in_code_under_test")
+                CURRENT.violation("exception:%s:%s" % (info["type"], info["where"]), info)
+            else:
+                raise MachineryError("exception in the code under test outside a Run: %s" % info["traceback"])
+        else:
+            out.append(r)
+    return out
